@@ -9,6 +9,7 @@ class Node:
         self.kind = kind        # class | template | typedef
         self.members = []       # source lines inside the body
         self.bases = []         # names (need complete)
+        self.base_via = {}      # base class name -> typedef name it is spelled with
         self.needs_complete = set()
         self.mentions = set()   # names only mentioned (pointer / reference / template arg by pointer)
         self.tparams = []
@@ -122,6 +123,17 @@ def generate(rng, n=None, lang="cxx"):
                 if b.name not in node.bases:
                     node.bases.append(b.name)
                     node.needs_complete.add(b.name)
+                    # the base named through a typedef of it (facts about the base then travel through the alias)
+                    tds = [t_ for t_ in g.nodes if t_.kind == "typedef" and t_.target == b.name]
+                    if not tds and rng.random() < 0.35:
+                        td_ = Node("AB%d_%s" % (i, b.name), "typedef")
+                        td_.target = b.name
+                        td_.mentions.add(b.name)
+                        g.nodes.append(td_)
+                        tds = [td_]
+                    if tds and rng.random() < 0.5:
+                        node.base_via[b.name] = tds[0].name
+                        node.needs_complete.add(tds[0].name)
         nm = rng.randint(1, 4)
         for j in range(nm):
             r = rng.random()
@@ -202,7 +214,7 @@ def render_node(g, x):
     head = ""
     if x.kind == "template":
         head = "template <%s> " % ", ".join("typename " + p for p in x.tparams)
-    bases = (" : " + ", ".join("public " + b for b in x.bases)) if x.bases else ""
+    bases = (" : " + ", ".join("public " + x.base_via.get(b, b) for b in x.bases)) if x.bases else ""
     body = "\n".join("  " + m for m in x.members)
     if g.lang == "c":
         body = body.replace("bool", "_Bool")
